@@ -37,6 +37,12 @@ def gen_world(rng, pid):
         # a middle level that renames nothing, holding a class that does
         classes["Mid"] = {"fields": [["inn", "nested", "Inner"], ["k", "scalar", "Int64"]]}; order.append("Mid")
     if "Mid" in classes: outer_fields.append(["mid", "nested", "Mid"])
+    if pid == "C19" and rng.random() < 0.6:
+        # a nested class whose fields ALL have declared defaults, held in a field for which the OUTER class declares
+        # another default: an all-default nested object must still come back as it was
+        classes["AllD"] = {"fields": [["k", "scalar", "Float64", {"default": 0.5}], ["n", "scalar", "Int32", {"default": 2}]]}
+        order.insert(0, "AllD")
+        outer_fields.append(["dd", "nested", "AllD", {"default": {"k": 1.5, "n": 7}}])
     rng.shuffle(outer_fields)
     outer = {"fields": outer_fields, "rename": {"inner2": "inner_renamed"}}
     if rng.random() < 0.3: outer["rename"]["s"] = "sigma"
@@ -68,6 +74,8 @@ class HModel:
 
     def defaults(self, cname, rng):
         out = {}
+        if cname == "AllD" and rng.random() < 0.5:
+            return {f[0]: f[3]["default"] for f in self.w["classes"][cname]["fields"]}
         for f in self.w["classes"][cname]["fields"]:
             if f[1] in ("scalar", "string", "array"):
                 out[f[0]] = fval(rng, f)
@@ -123,6 +131,8 @@ def gen_case(rng, nops, pid):
     if holes: push({"op": "raw_alloc", "buf": "B0", "size": rng.choice([8, 24, 40]), "name": "h0"})
     new("i1", "Inner", rng.choice(["B0", "B1", "B2"]))
     new("o", "Outer", rng.choice(["B0", "B0", "Nown_o"]))      # N..: a buffer of its own (the object sits at offset 0)
+    if "Mid" in world["classes"] and not has_refs(world, "Mid"):
+        new("m0", "Mid", rng.choice(["B0", "B0", "B1"]))      # a dressed object that has a dressed part of its own
     if "InnerD" in world["classes"]:
         new("e0", "InnerD", "B0"); new("e1", "InnerD", "B0")
     if holes:
@@ -130,8 +140,21 @@ def gen_case(rng, nops, pid):
         push({"op": "fill", "buf": "B0"}); push({"op": "raw_free", "name": "h0"})
     if rng.random() < 0.5: new("o2", "Outer", "B0")
     spec_of = lambda c: world["classes"][c]
+    # a directed prefix (C18): an object shared by two reference fields stays pinned when ONE of them is reset
+    if pid == "C18" and "o2" in M.objs and any(f[1] == "ref" for f in spec_of("Outer")["fields"]) \
+            and M.objs["o"]["buf"] == "B0" and rng.random() < 0.5:
+        M.objs["o"]["fields"]["r"] = {"ref": "i0"}; M.objs["i0"]["movable"] = False
+        push({"op": "set", "obj": "o", "via": [], "field": "r", "value": {"obj": "i0"}, "kind": "assign-ref", "refused": False})
+        M.objs["o2"]["fields"]["r"] = {"ref": "i0"}
+        push({"op": "set", "obj": "o2", "via": [], "field": "r", "value": {"obj": "i0"}, "kind": "assign-ref", "refused": False})
+        M.objs["o"]["fields"]["r"] = {"ref": None}
+        push({"op": "set", "obj": "o", "via": [], "field": "r", "value": None, "kind": "assign-null"})
+        push({"op": "move", "obj": "i0", "via": [], "buf": rng.choice(["B1", "B2"]), "refused": True})
     for k in range(nops):
         r = rng.random()
+        if pid == "C18" and r > 0.96:
+            # the buffer grows (its storage is replaced): attributes must keep mirroring the data
+            push({"op": "grow", "buf": "B0"}); continue
         outers = [n for n, o in M.objs.items() if o["cls"] == "Outer"]
         inners = [n for n, o in M.objs.items() if o["cls"] == "Inner" and not o.get("anon")]
         if pid == "C19" and r < 0.3:
@@ -176,13 +199,17 @@ def gen_case(rng, nops, pid):
                 push({"op": "set", "obj": n, "via": via, "field": f[0], "value": x})
         elif r < 0.55 and outers and inners:
             # a dressed object assigned to a plain nested field: an independent copy is stored
-            n = rng.choice(outers); src = rng.choice(inners)
-            f = rng.choice([f for f in spec_of("Outer")["fields"] if f[1] == "nested" and f[2] == "Inner"])
+            n = rng.choice(outers)
+            f = rng.choice([f for f in spec_of("Outer")["fields"] if f[1] == "nested" and (f[2] == "Inner" or (f[2] == "Mid" and "m0" in M.objs))])
+            src = rng.choice(inners) if f[2] == "Inner" else "m0"
             M.objs[n]["fields"][f[0]] = copy.deepcopy(M.objs[src]["fields"])
             push({"op": "set", "obj": n, "via": [], "field": f[0], "value": {"obj": src}, "kind": "assign-copy"})
         elif r < 0.70 and outers and inners and any(f[1] == "ref" for f in spec_of("Outer")["fields"]):
             # a dressed object assigned to a reference field: shared; refused across buffers (and then nothing changes)
             n = rng.choice(outers); src = rng.choice(inners)
+            if rng.random() < 0.3:       # the reference is reset: it denotes nothing afterwards
+                M.objs[n]["fields"]["r"] = {"ref": None}
+                push({"op": "set", "obj": n, "via": [], "field": "r", "value": None, "kind": "assign-null"}); continue
             same = M.objs[src]["buf"] == M.objs[n]["buf"]
             if same:
                 M.objs[n]["fields"]["r"] = {"ref": src}; M.objs[src]["movable"] = False
@@ -277,7 +304,7 @@ def judge_case(pid, c, r):
     world = c["world"]
     for k, (op, st) in enumerate(zip(c["ops"], r["steps"])):
         kind = op["op"] + ("-" + op["kind"] if "kind" in op else "")
-        mine = {"C18": op["op"] in ("new", "set", "set_item", "copy", "move"), "C19": op["op"] == "to_dict_roundtrip",
+        mine = {"C18": op["op"] in ("new", "set", "set_item", "copy", "move", "grow"), "C19": op["op"] == "to_dict_roundtrip",
                 "C20": op["op"] in ("pickle", "set", "set_item")}[pid]
         if op["op"] in ("set", "set_item") and pid == "C20":
             mine = op["obj"].startswith("p")       # usability of unpickled objects
@@ -368,11 +395,11 @@ def run(ctx):
                 if isinstance(v, dict): return all(finite(x) for x in v.values())
                 if isinstance(v, list) and v and isinstance(v[0], (dict, list)): return all(finite(x) for x in v)
                 return True
-            # JSON has no NaN / inf: replace non-finite float payloads
+            # NaN payload bits are not preserved by any text form: replace NaN only
             def fix(t, v):
                 if t["k"] == "scalar" and t["name"].startswith("Float"):
                     x = _struct.unpack(G.FMT[t["name"]], bytes(v))[0]
-                    return list(_struct.pack(G.FMT[t["name"]], 1.5)) if x != x or x in (float("inf"), float("-inf")) else v
+                    return list(_struct.pack(G.FMT[t["name"]], 1.5)) if x != x else v       # NaN payloads are not comparable; +-inf must round trip
                 if t["k"] == "struct": return {"f": [fix(ft, x) for (_, ft), x in zip(t["fields"], v["f"])]}
                 if t["k"] == "array": return {"shape": v["shape"], "items": [fix(t["item"], x) for x in v["items"]]}
                 if t["k"] == "string" and "cap" in v: return {"s": [], "size": 16}
@@ -467,6 +494,15 @@ def plain_pickles(ctx, rng, n):
             note("C20/plain/restored-shape-strides-or-offsets-differ/%s" % st, "caches %s vs %s" % (json.dumps(r.get("caches"))[:150], json.dumps(r.get("orig_caches"))[:150]), i); continue
         if r["off"] != r["orig_off"] or r["size"] != r["orig_size"]:
             note("C20/plain/offset-or-size-changed/%s" % st, "offset %s size %s, before %s %s" % (r["off"], r["size"], r["orig_off"], r["orig_size"]), i); continue
+        w = r.get("write_through_view")
+        if "write_through_view_exc" in r:
+            note("C20/plain/write-through-array-view-of-restored-object-raises/%s" % st, r["write_through_view_exc"], i); continue
+        if w is not None and (w["item_reads"] != w["wrote"] or w["view_item_reads"] != w["wrote"]):
+            note("C20/plain/write-through-array-view-of-restored-object-not-seen/%s" % st, "wrote %s through to_nplike(); item access reads %s, a fresh view reads %s" % (w["wrote"], w["item_reads"], w["view_item_reads"]), i); continue
+        if "restored_context_exc" in r:
+            note("C20/plain/context-of-restored-object-unusable", r["restored_context_exc"], i); continue
+        if r.get("copy_in_restored_context") is False:
+            note("C20/plain/copy-in-restored-context-differs/%s" % st, "T(restored, _context=restored context) reads differently", i); continue
         if r["shares_storage_with_original"]:
             note("C20/plain/restored-object-shares-storage-with-the-original", "same buffer object", i); continue
         if r.get("sibling_same_buffer") is False:
